@@ -3,7 +3,8 @@
 Space: 17 supported disable flags + 2 enable flags (ENERGY, INVDISCRETE); on each of 3 rich models: every flag
 subset of size <=2 (191), the full power set of the constraint cluster {constraint, equality, frictionloss,
 limit, contact} (32) and of the passive cluster {spring, damper, gravity, eulerdamp, actuation, clampctrl} (64);
-thorough: every subset of size <=3.  The flags are set on the MjModel before put_model / make_data.
+thorough: every subset of size <=3.  The flags are set on the MjModel before put_model / make_data; every
+subset of size 1..2 is additionally switched on at run time, after one flag-free step on the same Data (parity only).
 Oracles: (1) parity: one mjw.step vs mj_step with the same flags: next qpos/qvel/act/time, sensordata, energy,
 row counts ne/nf/nl/ncon/nefc, the per-term force arrays of the forward pass; (2) differential inside MJWarp
 against the flag-free run of the same model: a flag's own term is exactly zero and every per-term array that
@@ -99,7 +100,12 @@ def scenarios(tier, seed):
       seen.add(key)
       uniq.append(key)
   uniq.sort(key=lambda s: (len(s), [FLAGS.index(f) for f in s]))
-  return [dict(model=mdl, flags=list(s), variant=v) for s in uniq for mdl in MODELS]
+  out = [dict(model=mdl, flags=list(s), variant=v) for s in uniq for mdl in MODELS]
+  # flags switched at RUN TIME: one flag-free step on both engines, then the flags are set on the live Model / MjModel and a second
+  # step is taken on the same Data (every per-term array holds the values of the flag-free step when the flagged step starts)
+  toggles = [s for s in uniq if 1 <= len(s) <= 2 and not set(s) & {"FILTERPARENT", "ISLAND", "MULTICCD", "SENSOR"}]
+  out += [dict(model=mdl, flags=list(s), variant=v, toggle=1) for s in toggles for mdl in MODELS]
+  return out
 
 
 # ------------------------------------------------------------------------------------------------ models
@@ -246,21 +252,29 @@ def _posvel_mask(mjm):
   return mask
 
 
-def _run(name, v, flags):
+def _run(name, v, flags, toggle=False):
   """One step on both engines with the given flags -> (reference dict | None, MJWarp dict)."""
   import mujoco
   import mujoco_warp as mjw
 
   mjm = util.load(model_xml(name, v))
   dis, en = _flagbits(flags)
-  mjm.opt.disableflags = int(mjm.opt.disableflags) | dis
-  mjm.opt.enableflags = int(mjm.opt.enableflags) | en
+  if not toggle:
+    mjm.opt.disableflags = int(mjm.opt.disableflags) | dis
+    mjm.opt.enableflags = int(mjm.opt.enableflags) | en
   qpos, qvel, ctrl, act = model_state(name, v, mjm)
   mjd = util.mj_data(mjm, qpos=qpos, qvel=qvel, ctrl=ctrl, act=act if mjm.na else None)
   mjd.qacc_warmstart[:] = [0.7 * ((i % 3) - 1) for i in range(mjm.nv)]
   m = mjw.put_model(mjm)
   d = mjw.make_data(mjm)
   util.copy_state(mjd, d)
+  if toggle:
+    mujoco.mj_step(mjm, mjd)
+    mjw.step(m, d)
+    mjm.opt.disableflags = int(mjm.opt.disableflags) | dis
+    mjm.opt.enableflags = int(mjm.opt.enableflags) | en
+    m.opt.disableflags = int(m.opt.disableflags) | dis
+    m.opt.enableflags = int(m.opt.enableflags) | en
   mujoco.mj_step(mjm, mjd)
   mjw.step(m, d)
   mask = _posvel_mask(mjm)
@@ -290,9 +304,10 @@ def execute(scn):
   if ck not in _CACHE:
     _CACHE[ck] = _run(name, v, [])
   ref0, got0 = _CACHE[ck]
-  ref, got = _run(name, v, flags)
+  toggle = bool(scn.get("toggle"))
+  ref, got = _run(name, v, flags, toggle=toggle)
   fl = "+".join(flags) if flags else "none"
-  tag = f"{name}:{fl}"
+  tag = f"{name}:{fl}" + (":set_at_run_time" if toggle else "")
 
   # ---- (1) parity with MuJoCo under the same flags
   if not ref["warn"]:
@@ -300,6 +315,8 @@ def execute(scn):
     for f in ("ne", "nf", "nl", "ncon", "nefc"):
       c.equal(f"{tag}:{f}", got[f], ref[f], vkey=f"parity:{f}:{fl}")
     for f in FORCE_TERMS:
+      if toggle and f == "act_dot" and "ACTUATION" in flags:
+        continue  # mj_fwdActuation returns before touching act_dot: MuJoCo keeps the previous step's value (never integrated), MJWarp writes 0
       c.close(f"{tag}:{f}", got[f], ref[f], "f32dyn", vkey=f"parity:{f}:{fl}")
     for f in ("qpos", "qvel", "act", "qacc", "qfrc_constraint", "sensordata"):
       c.close(f"{tag}:{f}", got[f], ref[f], dyn, vkey=f"parity:{f}:{fl}")
@@ -308,6 +325,12 @@ def execute(scn):
     if "ENERGY" in flags:
       c.close(f"{tag}:energy", got["energy"], ref["energy"], "f32dyn", vkey=f"parity:energy:{fl}")
     c.close(f"{tag}:time", got["time"], ref["time"], "f32", vkey=f"parity:time:{fl}")
+
+  if toggle:
+    # only parity: the flag-free reference of (2) belongs to another state
+    for v_ in c.violations:
+      v_["vkey"] = "toggle:" + v_["vkey"]
+    return c.result(nontrivial=not ref["warn"], key=key, outcome="ok" if not ref["warn"] else "degenerate", info=dict(nefc=ref["nefc"], checked=c.nchecked))
 
   # ---- (2) differential inside MJWarp against the flag-free run
   fs = set(flags)
